@@ -47,7 +47,7 @@ def _pyvc_worker(args):
 def run_pyvc(prop, tier):
     from .contracts import build_registry
     reg = build_registry()
-    targets = [c.target for c in reg.for_prop(prop) if not c.assumed]
+    targets = [c.key for c in reg.for_prop(prop) if not c.assumed]
     assumed = [f'assumed contract: {c.target} -- {c.note}' for c in reg.for_prop(prop)
                if c.assumed]
     if not targets:
